@@ -4514,10 +4514,22 @@ func (p *Posix) CopyObject(ctx context.Context, input s3response.CopyObjectInput
 	var chType types.ChecksumType
 
 	dstObjdPath := joinPathWithTrailer(dstBucket, dstObject)
-	if dstObjdPath == objPath {
-		if input.MetadataDirective == types.MetadataDirectiveCopy {
-			return &s3.CopyObjectOutput{}, s3err.GetAPIError(s3err.ErrInvalidCopyDest)
+	if dstObjdPath == objPath && input.MetadataDirective == types.MetadataDirectiveCopy {
+		return &s3.CopyObjectOutput{}, s3err.GetAPIError(s3err.ErrInvalidCopyDest)
+	}
+	// An object copied onto itself with new metadata is rewritten in place,
+	// unless the bucket keeps versions: there the copy is a write like any
+	// other, which creates a new version (or replaces the null version) and
+	// leaves the version it was made from as it is, metadata included.
+	inPlace := dstObjdPath == objPath
+	if inPlace && p.versioningEnabled() && !fi.IsDir() {
+		dstVStatus, err := p.getBucketVersioningStatus(ctx, dstBucket)
+		if err != nil {
+			return nil, err
 		}
+		inPlace = dstVStatus == ""
+	}
+	if inPlace {
 
 		// Delete the object metadata
 		for k := range mdmap {
